@@ -232,12 +232,14 @@ class CasJsonDeserializer:
     def _get_or_create_view(
         self, cas: Cas, view_name: str, fs_id: Optional[int] = None, sofa_num: Optional[int] = None
     ) -> Cas:
-        if view_name == NAME_DEFAULT_SOFA:
-            view = cas.get_view(NAME_DEFAULT_SOFA)
+        if view_name == NAME_DEFAULT_SOFA or any(sofa.sofaID == view_name for sofa in cas.sofas):
+            view = cas.get_view(view_name)
 
             # We need to make sure that the sofa gets the real xmi, see #155
             if fs_id is not None:
                 view.get_sofa().xmiID = fs_id
+            if sofa_num is not None:
+                view.get_sofa().sofaNum = sofa_num
 
             return view
         else:
@@ -258,6 +260,9 @@ class CasJsonDeserializer:
         view.sofa_mime = json_fs.get(FEATURE_BASE_NAME_SOFAMIME)
         view.sofa_uri = json_fs.get(FEATURE_BASE_NAME_SOFAURI)
         view.sofa_array = feature_structures.get(json_fs.get(REF_FEATURE_PREFIX + FEATURE_BASE_NAME_SOFAARRAY))
+
+        self._max_xmi_id = max(view.get_sofa().xmiID, self._max_xmi_id)
+        self._max_sofa_num = max(view.get_sofa().sofaNum, self._max_sofa_num)
 
         return view.get_sofa()
 
